@@ -1,4 +1,5 @@
 SPECIFICATION Spec
 CONSTANT TranslateVaddr = TRUE
-INVARIANTS Total StepsAreFunction SonameIsTheImages
+CONSTANT RemoteNameCap = FALSE
+INVARIANTS Total StepsAreFunction SonameIsTheImages SourceIndependent
 CHECK_DEADLOCK FALSE
